@@ -75,7 +75,7 @@ def internal_job(job):
         try:
             eps, _ = arun.run_history(h, run["history"], on_boundary=None)
         except gate.LogicalDeadlock as e:
-            out.append(dict(id=f"{job['id']}/r{ri}", deadlock=str(e)))
+            out.append(dict(id=f"{job['id']}/r{ri}", deadlock=str(e), history=run["history"], sched=run["sched"]))
             break
         except Exception as e:  # a lifecycle call raised
             import traceback
